@@ -108,14 +108,17 @@ CLAIMED.update({
 })
 
 CLAIMED.update({
-    'C01': ('other', 'operation laws over LLVM IR: inferred size/result laws of internal helpers (all exits agree modulo path '
-                     'equalities; checked induction variables for loops) composed up to the public operations and compared '
-                     'with std::vector\'s specified count and returned position',
+    'C01': ('other', 'operation laws over LLVM IR: inferred size/result/element-range-effect laws of internal helpers (exits merged '
+                     'modulo path equalities; loops generalised by checked induction variables) composed up to the public operations '
+                     'and compared with std::vector\'s specified count, returned position and element placement',
             'Structural clauses only. Decided on every normal-return path of every public modifier, constructor and assignment in '
             'every corpus configuration: size() after the call is std::vector\'s specified count (R01.1), the returned '
             'iterator/reference is the specified position relative to data() after the call (R01.2), at() returns data()[i] exactly '
-            'where i < size() is established and raises where it is refuted (R01.3). Element VALUES and their order over histories '
-            'are run-time data and are NOT decided: that part of the property is outside static analysis.',
+            'where i < size() is established and raises where it is refuted (R01.3), and the element operations on the path tile the '
+            'resulting sequence from exactly the sources std::vector specifies - kept prefix, inserted values/range in order, suffix '
+            'shifted by the inserted or erased count, safe copy direction, no read after overwrite (R01.4; element types with opaque '
+            'special members). Whole histories are not replayed and stored VALUES are not computed: that part of the property is outside '
+            'static analysis.',
             'Trusts clang 14 IR lowering; the standard library\'s copy loops return what the standard specifies; pointer differences '
             'within one array are exact multiples of the element size; the probe corpus as the set of instantiations.',
             'DESIGN.md section 10.8'),
